@@ -34,7 +34,7 @@ PROPERTY = 'C09'
 
 STREAM_KINDS = ['host', 'exit', 'exit-inside', 'ip', 'resolve', 'internal', 'non-new']
 ANSWERS = ['built', 'launched', 'extended', 'failed', 'closed', 'unknown', 'noncircuit', 'zero', 'false', 'emptystr', 'emptylist',
-           'none', 'dna', 'raise']
+           'none', 'dna', 'raise', 'fresh']
 FALSY = {'zero': 0, 'false': False, 'emptystr': '', 'emptylist': []}
 DELIVERY = ['now', 'deferred', 'coroutine']
 
@@ -130,6 +130,9 @@ def run_partA(kinds, answer, delivery):
         def answer_for(stream):
             if answer == 'built':
                 return st.circuits[1]
+            if answer == 'fresh':
+                # a circuit built for this stream: it did not exist when the stream appeared (a Deferred answer only)
+                return st.circuits[2] if 2 in st.circuits else st.circuits[1]
             if answer in objs:
                 return objs[answer]
             if answer == 'noncircuit':
@@ -160,6 +163,8 @@ def run_partA(kinds, answer, delivery):
         if delivery == 'deferred':
             # the attacher makes up its mind only now, after another event went by
             impl.event('CIRC', M.circ_line(1, 'BUILT', 3))
+            if answer == 'fresh':
+                build_circuit(impl, 2, 'BUILT')
             att.fire_pending()
             impl.sim.pump()
         cmds = impl.sim.commands[base:]
@@ -176,6 +181,8 @@ def run_partA(kinds, answer, delivery):
                 want = []
             elif answer == 'built':
                 want = ['ATTACHSTREAM %d 1' % sid]
+            elif answer == 'fresh':
+                want = ['ATTACHSTREAM %d %d' % (sid, 2 if delivery == 'deferred' else 1)]
             elif answer == 'none':
                 want = ['ATTACHSTREAM %d 0' % sid]
             else:
@@ -260,8 +267,9 @@ def run_bookkeeping():
     return dict(viol=viol, obs=('bookkeeping',), log=[])
 
 
-def run_priority(config, removed):
-    """config: tuple of (priority, answer) in insertion order; removed: index removed before the stream or None"""
+def run_priority(config, removed, when='before'):
+    """config: tuple of (priority, answer) in insertion order; removed: index removed (or None) - before the first stream, or
+    (when='after') after a first stream has been decided, before a second one"""
     viol = []
     with World() as w:
         impl = Impl(w)
@@ -280,39 +288,55 @@ def run_priority(config, removed):
             a = Attacher(answer_for, 'now')
             subs.append(a)
             pa.add_attacher(a, prio)
-        if removed is not None:
+        if removed is not None and when == 'before':
             pa.remove_attacher(subs[removed])
         st._attacher_error = lambda f: None
         st.set_attacher(pa, w.reactor)
         impl.sim.pump()
-        base = len(impl.sim.commands)
-        impl.sim.event(stream_event('host', 5))
-        impl.sim.pump()
-        attach = [c for c in impl.sim.commands[base:] if c.startswith('ATTACHSTREAM')]
-        # reference: by (priority, insertion), first non-None decides
-        order = sorted((p, i) for i, (p, a) in enumerate(config) if i != removed)
-        decision = None
-        for p, i in order:
-            if config[i][1] != 'none':
-                decision = config[i][1]
-                break
-        if decision is None:
-            want = ['ATTACHSTREAM 5 0']
-        elif decision == 'dna':
-            want = []
-        else:
-            want = ['ATTACHSTREAM 5 %s' % decision[1]]
-        if attach != want:
-            feat = 'order' if (attach and want and attach != want) else ('dna' if decision == 'dna' else 'missing')
-            viol.append(('priority-attacher', feat, 'sub-attachers (priority, answer) %r, removed %r: wire %r, reference %r'
-                         % (config, removed, attach, want)))
-        if removed is not None and subs[removed].calls:
+
+        def reference(sid, gone):
+            # by (priority, insertion), first non-None decides
+            order = sorted((p, i) for i, (p, a) in enumerate(config) if i != gone)
+            decision = None
+            for p, i in order:
+                if config[i][1] != 'none':
+                    decision = config[i][1]
+                    break
+            if decision is None:
+                return decision, ['ATTACHSTREAM %d 0' % sid]
+            if decision == 'dna':
+                return decision, []
+            return decision, ['ATTACHSTREAM %d %s' % (sid, decision[1])]
+
+        obs = []
+        plan = [(5, removed if when == 'before' else None)]
+        if when == 'after':
+            plan.append((6, removed))
+        for sid, gone in plan:
+            if sid == 6:
+                pa.remove_attacher(subs[removed])
+                calls_before = len(subs[removed].calls)
+            base = len(impl.sim.commands)
+            impl.sim.event(stream_event('host', sid))
+            impl.sim.pump()
+            attach = [c for c in impl.sim.commands[base:] if c.startswith('ATTACHSTREAM')]
+            decision, want = reference(sid, gone)
+            if attach != want:
+                feat = 'order' if (attach and want and attach != want) else ('dna' if decision == 'dna' else 'missing')
+                if sid == 6:
+                    feat += '/after-removal'
+                viol.append(('priority-attacher', feat, 'sub-attachers (priority, answer) %r, removed %r (%s stream %d): wire %r, reference %r'
+                             % (config, removed, when, sid, attach, want)))
+            obs.append(tuple(attach))
+        if removed is not None and when == 'before' and subs[removed].calls:
             viol.append(('priority-attacher', 'removed-consulted', '%r' % (config,)))
+        if removed is not None and when == 'after' and len(subs[removed].calls) != calls_before:
+            viol.append(('priority-attacher', 'removed-consulted/after-removal', '%r' % (config,)))
         errs = w.errors()
         if errs:
             viol.append(('logged-error', errs[0][1], '%r' % (errs[:1],)))
-        obs = tuple(attach)
-    return dict(viol=viol, obs=obs, log=['priority config %r removed %r' % (config, removed), 'wire %r' % (attach,)])
+        obs = tuple(obs)
+    return dict(viol=viol, obs=obs, log=['priority config %r removed %r (%s the first stream)' % (config, removed, when), 'wire %r' % (obs,)])
 
 
 # --------------------------------------------------------------------------
@@ -527,10 +551,11 @@ def run_task(param, acc):
             for ps in itertools.product(prios, repeat=n):
                 for ans in itertools.product(answers, repeat=n):
                     config = tuple(zip(ps, ans))
-                    for removed in [None] + list(range(n)):
-                        r = run_priority(config, removed)
-                        rec_exec(acc, ('prio', config, removed), r, dict(part='prio', config=[list(c) for c in config], removed=removed),
-                                 cost=n * 10 + (0 if removed is None else 1))
+                    for removed, when in [(None, 'before')] + [(i, wh) for i in range(n) for wh in ('before', 'after')]:
+                        r = run_priority(config, removed, when)
+                        rec_exec(acc, ('prio', config, removed, when), r,
+                                 dict(part='prio', config=[list(c) for c in config], removed=removed, when=when),
+                                 cost=n * 10 + (0 if removed is None else 1) + (2 if when == 'after' else 0))
         acc.sample(dict(part='prio', config=[list(c) for c in config], log=r['log']), limit=1)
     else:
         _, variant, lo, hi = param
@@ -551,7 +576,7 @@ def replay(p):
     elif p['part'] == 'book':
         r = run_bookkeeping()
     elif p['part'] == 'prio':
-        r = run_priority(tuple(tuple(c) for c in p['config']), p['removed'])
+        r = run_priority(tuple(tuple(c) for c in p['config']), p['removed'], p.get('when', 'before'))
     else:
         r = run_partB(tuple(p['order']), p['variant'])
     return dict(violations=[dict(signature='%s/%s' % (c, f), what=d) for c, f, d in r['viol']], log=r['log'])
@@ -561,7 +586,7 @@ def meta(tier):
     return dict(
         engine='E1 full product (Part A) and all interleavings (Part B) on the real TorState / TorCircuitEndpoint / SOCKS client',
         rule='A: 7 stream kinds (1 and 2 streams) x 10 attacher answers x 3 delivery modes; set_attacher bookkeeping; every '
-             'PriorityAttacher configuration of <= 3 sub-attachers over 3 priorities x 4 answers with every single removal. '
+             'PriorityAttacher configuration of <= 3 sub-attachers over 3 priorities x 4 answers with every single removal, before the first stream or between two streams. '
              'B: every merge of two connection chains (TCP established, method reply, STREAM NEW, SOCKS success) with an '
              'unrelated STREAM NEW, in 6 variants (plain, same target host, unrelated client with the same source port on another address, attacher-install SETCONF acknowledged only after both connects started, circuit 2 still building, circuit 1 closing); '
              'non-trivial: all',
